@@ -432,6 +432,26 @@ Proof.
   repeat split; cbn [step_pc]; [destruct (rule_fires (mode s) r); reflexivity | intros H; rewrite H; reflexivity].
 Qed.
 
+(* the cause is set only by the transition that wins the CAS Running->Stopping: a member that
+   terminates later (the application is stopping or already loaded), with whatever reason, leaves
+   a.reason - and so the reason the Terminate callback will get - untouched *)
+Theorem late_death_keeps_reason s r :
+  st s <> SR ->
+  step_pc s (D_stopping r) = Some (s, D_starting) /\
+  (forall s' p', step_pc s (D_mode r) = Some (s', p') -> reason s' = reason s) /\
+  (forall p, die_inflight p = true ->
+     match p with D_reason _ | D_default => True | _ =>
+       forall s' p', step_pc s p = Some (s', p') -> reason s' = reason s end).
+Proof.
+  intros H. split; [cbn [step_pc]; destruct (st s); congruence|]. split.
+  - intros s' p' E. cbn [step_pc] in E. destruct (rule_fires (mode s) r); inversion E; reflexivity.
+  - intros p Hd. destruct p; try discriminate Hd; try exact I; intros s' p' E; cbn [step_pc] in E;
+      repeat match type of E with
+             | context [if ?b then _ else _] => destruct b
+             | context [match st s with _ => _ end] => destruct (st s)
+             end; inversion E; reflexivity.
+Qed.
+
 (* Temporary: the last member to leave the group finalises the run (once start is through) *)
 Theorem last_member_finalises s :
   starting s = false -> ng s = 0 ->
